@@ -1268,3 +1268,6 @@ def replay_skeleton(rp):
 
 REPLAY["skeleton"] = replay_skeleton
 REPLAY["src"] = c13.replay_src
+
+from suites import thorough as _th
+GROUPS["thorough:skeletons"] = _th.bounded_from_replay("bounded/control-flow-skeletons-depth-2-x-3-schedules", replay_skeleton)
